@@ -98,9 +98,25 @@ func loadInv17() *inv17 {
 	return &v
 }
 
+// c17Decoys: the working directory of every C17 run holds a readable file named after each
+// advertised platform (a syntactically valid definition of a DIFFERENT platform).  The property
+// says advertised names load "from the embedded definitions": whatever lies around in the working
+// directory must not matter.
+func c17Decoys(names []string) {
+	dir := filepath.Join(workDir(), fmt.Sprintf("c17-cwd-%d", os.Getpid()))
+	_ = os.MkdirAll(dir, 0o755)
+	decoy := "---\nplatform-type: 'decoy_os'\ndefault:\n  driver-type: 'generic'\n  failed-when-contains: ['decoy']\n"
+	for _, n := range names {
+		_ = os.WriteFile(filepath.Join(dir, n), []byte(decoy), 0o644)
+		_ = os.WriteFile(filepath.Join(dir, n+".yaml"), []byte(decoy), 0o644)
+	}
+	_ = os.Chdir(dir)
+}
+
 func runC17(seed uint64, n int, tier string) {
 	rng := sim.NewRng(seed)
 	inv := loadInv17()
+	c17Decoys(append(append([]string{}, inv.Advertised...), inv.Files...))
 	var cases []*c17Case
 	names := append([]string{}, inv.Advertised...)
 	for _, f := range inv.Files {
@@ -198,6 +214,9 @@ func onxCalls(ops []map[string]interface{}, def string) (calls []string, lines [
 func runC17Case(id string, c *c17Case) {
 	defer recoverCase(id, c)
 	inv := loadInv17()
+	if wd, _ := os.Getwd(); !strings.Contains(wd, "c17-cwd-") { // replay of a single case
+		c17Decoys(append(append([]string{}, inv.Advertised...), inv.Files...))
+	}
 	cs := &Case{ID: id, Kind: c.Name, HypOK: true, Replay: c, Nontrivial: true}
 	def, yerr := loadY17(c.Name)
 	// the device: built from the definition itself
